@@ -516,6 +516,58 @@ class _projection_u:
                    *[same(attr(x, "_bins"), attr(y, "_bins")) for x, y in zip(attr(old.self, "_binnings"), attr(a.self, "_binnings"))])
 
 
+@contract(H2 + ".__init__", props=["C02", "C18", "C13"], name=H2 + ".__init__[any shape]")
+class _init2d_u:
+    """the constructor every ND construction ends in, for cell arrays of ANY shape: stores exactly the given contents, squared
+    errors default to the contents, the missed weight is kept, wrong shapes and negative values are refused"""
+    def configs():
+        return [{"case": c} for c in ("ok", "no_errors2", "wrong_shape", "negative", "negative_errors2", "int_input")]
+
+    def inputs(b):
+        n0, n1 = b.int("n0"), b.int("n1")
+        b.assume(And(n0 >= 1, n1 >= 1))
+        c = b.cfg.case
+        bs = [static_binning_t(b, f"B{i}", n) for i, n in enumerate((n0, n1))]
+        dt = "int64" if c == "int_input" else "float64"
+        m0 = n0 + 1 if c == "wrong_shape" else n0
+        freq = b.tarray("f", (m0, n1), dt)
+        err2 = b.tarray("e", (n0, n1), dt)
+        if c != "negative":
+            b.assume(forall(0, m0, lambda i: forall(0, n1, lambda j: freq[i, j] >= 0)))
+        else:
+            b.assume(freq[0, 0] < 0)
+        if c != "negative_errors2":
+            b.assume(forall(0, n0, lambda i: forall(0, n1, lambda j: err2[i, j] >= 0)))
+        else:
+            b.assume(err2[0, 0] < 0)
+        missed = b.int("m") if c == "int_input" else b.real("m")
+        b.assume(missed >= 0)
+        kw = dict(self=b.obj(H2), binnings=bs, frequencies=freq, missed=missed)
+        if c != "no_errors2":
+            kw["errors2"] = err2
+        return kw
+
+    @ensures("stores_exactly_what_was_given_well_formed")
+    def _(a, old, result):
+        n0, n1 = [shape_of(attr(bn, "_bins"))[0] for bn in old.binnings]
+        f, e = Fq(a.self), Eq(a.self)
+        f0 = old.frequencies
+        cs = [a._cfg_case in ("ok", "no_errors2", "int_input"), shape_of(f)[0] == n0, shape_of(f)[1] == n1, shape_of(e)[0] == n0, shape_of(e)[1] == n1,
+              forall(0, n0, lambda i: forall(0, n1, lambda j: And(f[i, j] == f0[i, j], e[i, j] >= 0, f[i, j] >= 0))),
+              attr(a.self, "_dtype") == dtype_of(f0), dtype_of(f) == dtype_of(f0), dtype_of(e) == dtype_of(f0),
+              len(elems(attr(a.self, "_missed"))) == 1, elems(attr(a.self, "_missed"))[0] == old.missed,
+              len(attr(a.self, "_binnings")) == 2]
+        if hasattr(old, "errors2"):
+            cs.append(forall(0, n0, lambda i: forall(0, n1, lambda j: e[i, j] == old.errors2[i, j])))
+        else:
+            cs.append(forall(0, n0, lambda i: forall(0, n1, lambda j: e[i, j] == f0[i, j])))      # default: errors2 = |frequencies|
+        return And(*cs)
+
+    @raises(ValueError, "wrong_shape_or_negative_values_refused")
+    def _(o):
+        return o._cfg_case in ("wrong_shape", "negative", "negative_errors2")
+
+
 def line_prefix(F, i, j, axis):
     """running sum at cell (i, j) along `axis` of the 2-D array F: the first i + 1 cells of column j (axis 0) / first j + 1 of row i"""
     if isinstance(F, TArr_):
